@@ -231,6 +231,24 @@ def run(prog: Program) -> Results:
     if not ok:
         res.add("R-C07-2", ("parse", "parsed bytes differ from input"), parse.loc(calls_ast[0]),
                 "the text handed to the tree-sitter parser is not the unmodified input")
+    # every other construction site of the document must forward the parsed bytes too
+    for f in prog.all_functions():
+        if f.key == parse.key:
+            continue
+        for c in walk_no_nested(f.node):
+            if isinstance(c, ast.Call) and dotted(c.func) == "NixSourceCode.from_cst":
+                r2.instances += 1
+                kw = next((k.value for k in c.keywords if k.arg == bytes_param), c.args[1] if len(c.args) >= 2 else None)
+                asts = [x for x in walk_no_nested(f.node) if isinstance(x, ast.Call) and callee(x) == "parse_to_ast"]
+                parsed = None
+                if asts:
+                    parsed = asts[0].args[0] if asts[0].args else (asts[0].keywords[0].value if asts[0].keywords else None)
+                okc = kw is not None and parsed is not None and norm(kw) == norm(parsed)
+                r2.ob(okc, {"site": f.key, "from_cst_bytes": norm(kw) if kw is not None else None})
+                if not okc:
+                    res.add("R-C07-2", (f.key, "input bytes not forwarded"), f.loc(c),
+                            f"{f.key} builds the document with NixSourceCode.from_cst but does not hand it the bytes that were "
+                            f"parsed: an erroneous source falls back to <root>.text and loses its leading whitespace")
     # RawExpression.rebuild: every return is self.text, add_trivia(self.text, ...) or rebuild_scoped
     for rt in [n for n in ast.walk(raw_rebuild.node) if isinstance(n, ast.Return)]:
         r2.instances += 1
